@@ -4,6 +4,7 @@
 //	h-c11 gen <dir> <n> <verilogEvery>  build machines (random construction, basm front-end, hand-made JSON),
 //	                                   dump them (L.*), save them (<dir>/<i>.json, J.*), reload them in-process,
 //	                                   write their Verilog to <dir>/<i>/a
+//	h-c11 cliplan <bm.json> <outdir>   plan of the real-CLI operations on one saved file + expected files (cliplan.go)
 //	h-c11 load <dir> <lq>               FRESH process (registries as after init()): load every <dir>/<i>.json, dump
 //	                                   the result (X.*), re-save, write Verilog to <dir>/<i>/b and compare with a
 //	                                   lq = same | none | other : how DynLinearQuantizer.Ranges is configured
@@ -471,6 +472,9 @@ func main() {
 		cmdGen(os.Args[2], n, ve)
 	case "load":
 		cmdLoad(os.Args[2], os.Args[3])
+	case "cliplan":
+		snapshotStatics()
+		cmdCliPlan(os.Args[2], os.Args[3])
 	default:
 		fmt.Fprintln(os.Stderr, "unknown subcommand")
 		os.Exit(2)
